@@ -262,7 +262,7 @@ func runBlocked(c *mon.Case, sp spec) {
 			_, d, err = hx.Connect(peer, s, sp.Tran)
 		}
 		if err != nil {
-			c.Violate("setup:"+ctx, "connect over %s: %v", sp.Tran, err)
+			c.Inconclusive("setup "+ctx+": connect over %s: %v", sp.Tran, err)
 			return
 		}
 		if !hx.WaitAttached(c, ws, 1, "peer") {
@@ -274,7 +274,7 @@ func runBlocked(c *mon.Case, sp spec) {
 			err = l.Listen()
 		}
 		if err != nil {
-			c.Violate("setup:"+ctx, "listen over %s: %v", sp.Tran, err)
+			c.Inconclusive("setup "+ctx+": listen over %s: %v", sp.Tran, err)
 			return
 		}
 	}
@@ -283,7 +283,7 @@ func runBlocked(c *mon.Case, sp spec) {
 		for i := 0; i < 2; i++ {
 			cx, err := s.OpenContext()
 			if err != nil {
-				c.Violate("setup:"+ctx, "OpenContext: %v", err)
+				c.Inconclusive("setup "+ctx+": OpenContext: %v", err)
 				return
 			}
 			cxs = append(cxs, cx)
@@ -467,11 +467,11 @@ func runDial(c *mon.Case, sp spec) {
 	}
 	d, err := s.NewDialer(addr, nil)
 	if err != nil {
-		c.Violate("setup:"+ctx, "NewDialer(%s): %v", addr, err)
+		c.Inconclusive("setup "+ctx+": NewDialer(%s): %v", addr, err)
 		return
 	}
 	if err := d.Dial(); err != nil {
-		c.Violate("setup:"+ctx, "asynchronous Dial returned %v", err)
+		c.Inconclusive("setup "+ctx+": asynchronous Dial returned %v", err)
 		return
 	}
 	// a Recv parked on the socket as well
@@ -583,7 +583,7 @@ func runStall(c *mon.Case, sp spec) {
 			err = l.Listen()
 		}
 		if err != nil {
-			c.Violate("setup:"+ctx, "listen: %v", err)
+			c.Inconclusive("setup "+ctx+": listen: %v", err)
 			return
 		}
 		a := l.Address()
@@ -664,7 +664,7 @@ func runStall(c *mon.Case, sp spec) {
 			err = d.Dial()
 		}
 		if err != nil {
-			c.Violate("setup:"+ctx, "dial: %v", err)
+			c.Inconclusive("setup "+ctx+": dial: %v", err)
 			return
 		}
 		mon.Await(func() bool { mu.Lock(); defer mu.Unlock(); return len(conns) >= 1 }, mon.AwaitOpts{Watchdog: 5 * time.Second})
@@ -717,7 +717,7 @@ func runSibling(c *mon.Case, sp spec) {
 	// s dials, peer listens — so s has a dialer and a pipe; a listener is added on s too
 	pl, d, err := hx.Connect(peer, s, sp.Tran)
 	if err != nil {
-		c.Violate("setup:"+ctx, "connect: %v", err)
+		c.Inconclusive("setup "+ctx+": connect: %v", err)
 		return
 	}
 	_ = pl
@@ -729,7 +729,7 @@ func runSibling(c *mon.Case, sp spec) {
 		err = l.Listen()
 	}
 	if err != nil {
-		c.Violate("setup:"+ctx, "second listener: %v", err)
+		c.Inconclusive("setup "+ctx+": second listener: %v", err)
 		return
 	}
 	maxT := 5 * time.Millisecond
@@ -738,7 +738,7 @@ func runSibling(c *mon.Case, sp spec) {
 		cx1, e1 := s.OpenContext()
 		cx2, e2 := s.OpenContext()
 		if e1 != nil || e2 != nil {
-			c.Violate("setup:"+ctx, "OpenContext: %v %v", e1, e2)
+			c.Inconclusive("setup "+ctx+": OpenContext: %v %v", e1, e2)
 			return
 		}
 		// both contexts park in Recv (req: needs a request first -> ErrProtoState otherwise, so send one)
